@@ -274,7 +274,7 @@ def In.plan (i : In) : Plan :=
     fs0 := ⟨i.fs0.map (fun e => { e with path := Persist.norm e.path }), i.dirs0.map Persist.norm⟩,
     fsFault := i.fsIdx.map fun k => (k, match i.fsOp with
       | "mkdir" => FsOp.mkdir | "stat" => .stat | "open" => .open_ | "write" => .write | "close" => .close | _ => .short),
-    out := match i.out with | "error" => .error | "short" => .short | _ => .none }
+    out := match i.out with | "error" => .error | "errorfull" => .error | "short" => .short | _ => .none }
 def engine : Engine :=
   mkEngine (I := In) (O := Outcome) (fun i => run i.plan) (fun _ => true) (fun i o => judge i.plan o)
 end C14
